@@ -1,9 +1,10 @@
 (* Props/C19.v — ill-formed requests are rejected, not answered.
    For each operation: guard_<op> (the checks the code performs, Model/C19Guards.v) = decide (pre_<op>), i.e.
-   pre = false -> Err and pre = true -> Ok tt; where the code is still weaker (open known findings): the full statement
-   is refuted by a witness and the partial statement is proved.  Only statements, `exact`, Print Assumptions. *)
+   pre = false -> Err and pre = true -> Ok tt; where the code is still weaker (open / known findings A-28, C19-N11, C19-N18,
+   C19-N20; empty data in collapse; 0-element matricised operands): the full statement is refuted by a witness and the
+   partial statement is proved.  Only statements, `exact`, Print Assumptions. *)
 From Coq Require Import List ZArith Bool.
-From PV Require Import Np.NpZ Gen.GenUtils Model.C19Guards Proofs.C19Proofs Proofs.C19Ttv Proofs.C19More Proofs.C19W3.
+From PV Require Import Np.NpZ Np.NpZ3 Gen.GenUtils Gen.GenUtils3 Model.C19Guards Proofs.C19Proofs Proofs.C19Ttv Proofs.C19More Proofs.C19W3 Proofs.C19Gen3.
 Import ListNotations.
 Local Open Scope Z_scope.
 
@@ -33,16 +34,18 @@ Theorem C19_tensor_innerprod : forall s u, guard_tensor_innerprod s u = decide (
 Proof. exact tensor_innerprod_decides. Qed.
 Print Assumptions C19_tensor_innerprod.
 
+(* C19-N01 repaired (the order is compared with range(ndims)); what is left is A-28 (known): order [1] on a 1-way tensor *)
 Theorem C19_tensor_permute_refuted : ~ tensor_permute_stmt.
 Proof. exact tensor_permute_refuted. Qed.
 Print Assumptions C19_tensor_permute_refuted.
 Theorem C19_tensor_permute_partial : forall s order,
-  all_ones order = false -> (forall x, In x order -> 0 <= x) ->
+  (ndim s =? 1) && all_ones order = false ->
   guard_tensor_permute s order = decide (pre_tensor_permute s order).
 Proof. exact tensor_permute_partial. Qed.
 Print Assumptions C19_tensor_permute_partial.
-Example C19_tensor_permute_ex : guard_tensor_permute [2; 3; 4] [2; 0; 1] = Ok tt /\ guard_tensor_permute [2; 3; 4] [2; 0; 0] = Err.
-Proof. split; reflexivity. Qed.
+Example C19_tensor_permute_ex : guard_tensor_permute [2; 3; 4] [2; 0; 1] = Ok tt /\ guard_tensor_permute [2; 3; 4] [2; 0; 0] = Err
+  /\ guard_tensor_permute [2; 3] [-1; 0] = Err /\ guard_tensor_permute [2; 3] [1; 1] = Err /\ guard_tensor_permute [2; 3; 4] [-1; -2; -3] = Err.
+Proof. repeat split; reflexivity. Qed.
 
 (* dense element-wise binary operations (C19-N02 repaired: tenfun_binary compares the shapes) *)
 Theorem C19_tensor_binop : forall s u, guard_tensor_binop s u = decide (pre_tensor_binop s u).
@@ -96,18 +99,15 @@ Proof. exact sptensor_innerprod_decides. Qed.
 Print Assumptions C19_sptensor_innerprod.
 Example C19_sptensor_innerprod_ex : guard_sptensor_innerprod [2; 3] true [3; 2] = Err /\ guard_sptensor_innerprod [2; 3] true [2; 3] = Ok tt.
 Proof. split; reflexivity. Qed.
-(* the constructor (C19-N14 repaired: negative subscripts are refused); a subscript array without rows skips every check,
-   the value count included (C19-N16) *)
-Theorem C19_sptensor_ctor_refuted : ~ sptensor_ctor_stmt.
-Proof. exact sptensor_ctor_refuted. Qed.
-Print Assumptions C19_sptensor_ctor_refuted.
-Theorem C19_sptensor_ctor_partial : forall s subs nvals,
-  subs <> [] -> hd [] subs <> [] -> (forall row, In row subs -> zlen row = zlen (hd [] subs)) ->
+(* the constructor (C19-N05, C19-N14, C19-N16 repaired), for every rectangular subscript array (rows of one length; at least
+   one column when there are rows) *)
+Theorem C19_sptensor_ctor : forall s subs nvals, rect_array subs ->
   guard_sptensor_ctor s subs nvals = decide (pre_sptensor_ctor s subs nvals).
-Proof. exact sptensor_ctor_partial. Qed.
-Print Assumptions C19_sptensor_ctor_partial.
+Proof. exact sptensor_ctor_decides. Qed.
+Print Assumptions C19_sptensor_ctor.
 Example C19_sptensor_ctor_ex : guard_sptensor_ctor [4] [[0]; [3]] 3 = Err /\ guard_sptensor_ctor [2; 3] [[0; 2]; [1; 1]] 2 = Ok tt
-  /\ guard_sptensor_ctor [2; 3] [[0; 3]; [1; 1]] 2 = Err /\ guard_sptensor_ctor [2; 3] [[0; -1]; [1; 1]] 2 = Err.
+  /\ guard_sptensor_ctor [2; 3] [[0; 3]; [1; 1]] 2 = Err /\ guard_sptensor_ctor [2; 3] [[0; -1]; [1; 1]] 2 = Err
+  /\ guard_sptensor_ctor [2; 3] [] 3 = Err /\ guard_sptensor_ctor [2; 3] [] 0 = Ok tt.
 Proof. repeat split; reflexivity. Qed.
 
 (* ---- ktensor ---- *)
@@ -307,39 +307,33 @@ Print Assumptions C19_ttt.
 Example C19_ttt_ex : guard_ttt [2; 3; 4] [4; 2; 5] [2; 0] [0; 1] = Ok tt /\ guard_ttt [2; 3; 4] [4; 2; 5] [0; 2] [0; 1] = Err
   /\ guard_ttt [2; 3; 4] [2; 3; 4] [0; 0] [0; 0] = Err /\ guard_ttt [2; 3; 4] [2; 3; 4] [-1] [-1] = Err.
 Proof. repeat split; reflexivity. Qed.
-(* linear indices k >= 0 (numpy wraps negative ones) *)
-Theorem C19_linear_index_refuted : ~ linear_index_stmt.
-Proof. exact linear_index_refuted. Qed.
-Print Assumptions C19_linear_index_refuted.
-Theorem C19_linear_index_partial : forall s k, 0 <= k -> guard_linear_index s k = decide (pre_linear_index s k).
-Proof. exact linear_index_partial. Qed.
-Print Assumptions C19_linear_index_partial.
-(* tensor.scale(factor, dims): exact when the modes are listed in ascending order; otherwise the factor is compared with
-   the sizes in ascending order, not in the caller's *)
-Theorem C19_scale_refuted : ~ scale_stmt.
-Proof. exact scale_refuted. Qed.
-Print Assumptions C19_scale_refuted.
-Theorem C19_scale_partial : forall s f d, np_sort d = d -> guard_scale s f d = decide (pre_scale s f d).
-Proof. exact scale_partial. Qed.
-Print Assumptions C19_scale_partial.
-Example C19_scale_ex : guard_scale [2; 3; 4] [2; 4] [0; 2] = Ok tt /\ guard_scale [2; 3; 4] [4; 2] [0; 2] = Err
-  /\ guard_scale [2; 3; 4] [2; 1] [0; 2] = Err /\ guard_scale [2; 3; 4] [2; 2] [0; 0] = Err.
+(* linear indices, over the GENERATED tt_ind2sub: answered exactly for -prod(shape) <= k < prod(shape) *)
+Theorem C19_linear_index : forall s k, guard_linear_index s k = decide (pre_linear_index s k).
+Proof. exact linear_index_decides. Qed.
+Print Assumptions C19_linear_index.
+Example C19_linear_index_ex : guard_linear_index [2; 3] 5 = Ok tt /\ guard_linear_index [2; 3] 6 = Err /\ guard_linear_index [2; 3] (-1) = Ok tt
+  /\ guard_linear_index [2; 3] (-6) = Ok tt /\ guard_linear_index [2; 3] (-7) = Err.
 Proof. repeat split; reflexivity. Qed.
-(* mttkrp on a Kruskal tensor: single-column matrices are stretched (C19-N09, open); on a sum of a dense and a Kruskal
-   part the dense part's comparison makes the request exact *)
-Theorem C19_ktensor_mttkrp_refuted : ~ ktensor_mttkrp_stmt.
-Proof. exact ktensor_mttkrp_refuted. Qed.
-Print Assumptions C19_ktensor_mttkrp_refuted.
-Theorem C19_ktensor_mttkrp_partial : forall s us n, forallb (fun u => negb (cols u =? 1)) us = true ->
-  guard_ktensor_mttkrp s us n = decide (pre_mttkrp s us n).
-Proof. exact ktensor_mttkrp_partial. Qed.
-Print Assumptions C19_ktensor_mttkrp_partial.
+(* tensor.scale(factor, dims), over the GENERATED tt_dimscheck: dims is a set of modes, the factor has the sizes of the listed
+   modes in ascending mode order *)
+Theorem C19_scale : forall s f d, guard_scale s f d = decide (pre_scale s f d).
+Proof. exact scale_decides. Qed.
+Print Assumptions C19_scale.
+Example C19_scale_ex : guard_scale [2; 3; 4] [2; 4] [0; 2] = Ok tt /\ guard_scale [2; 3; 4] [4; 2] [0; 2] = Err
+  /\ guard_scale [2; 3; 4] [2; 1] [0; 2] = Err /\ guard_scale [2; 3; 4] [2; 2] [0; 0] = Err
+  /\ guard_scale [2; 3; 4] [2; 4] [2; 0] = Ok tt /\ guard_scale [2; 3; 4] [4; 2] [2; 0] = Err.
+Proof. repeat split; reflexivity. Qed.
+(* mttkrp on a Kruskal tensor and on a sum of a dense and a Kruskal part (C19-N09 repaired: get_mttkrp_factors compares the
+   column counts) *)
+Theorem C19_ktensor_mttkrp : forall s us n, guard_ktensor_mttkrp s us n = decide (pre_mttkrp s us n).
+Proof. exact ktensor_mttkrp_decides. Qed.
+Print Assumptions C19_ktensor_mttkrp.
 Theorem C19_sumtensor_mttkrp : forall s us n, guard_sumtensor_mttkrp s us n = decide (pre_mttkrp s us n).
 Proof. exact sumtensor_mttkrp_decides. Qed.
 Print Assumptions C19_sumtensor_mttkrp.
 Example C19_ktensor_mttkrp_ex : guard_ktensor_mttkrp [2; 3; 4] [(2, 2); (3, 2); (4, 2)] 1 = Ok tt
   /\ guard_ktensor_mttkrp [2; 3; 4] [(2, 2); (3, 2); (4, 3)] 1 = Err /\ guard_ktensor_mttkrp [2; 3; 4] [(2, 2); (4, 2); (3, 2)] 0 = Err
-  /\ guard_sumtensor_mttkrp [2; 2; 2] [(2, 2); (2, 2); (2, 1)] 0 = Err.
+  /\ guard_ktensor_mttkrp [2; 2; 2] [(2, 2); (2, 2); (2, 1)] 0 = Err /\ guard_sumtensor_mttkrp [2; 2; 2] [(2, 2); (2, 2); (2, 1)] 0 = Err.
 Proof. repeat split; reflexivity. Qed.
 
 (* ttm on a Tucker tensor: tt_dimscheck and the size loop (an empty selection of modes is answered); on a sparse tensor:
@@ -356,30 +350,43 @@ Example C19_ttensor_ttm_ex : guard_ttensor_ttm [2; 3; 4] [(5, 4); (6, 2)] (Some 
   /\ guard_sptensor_ttm [2; 3; 4] [(5, 2); (6, 4)] (Some [2; 0]) None false = Err.
 Proof. repeat split; reflexivity. Qed.
 
-(* mttkrp on a sparse tensor: matrices with MORE columns than the first one are used up to that column (C19-N09, open);
-   exact when no matrix has more columns than R = the column count of U[1] (U[0] when n <> 0) and R > 0 *)
+(* the first step of every mttkrp, over the GENERATED get_mttkrp_factors (Gen/GenUtils3.v, regenerated from pyttb_utils.py on this
+   run): on a list of matrices U it refuses exactly when guard_mttkrp_factors refuses their shapes (list length, mode range,
+   one column count among the matrices other than U[n]) *)
+Theorem C19_get_mttkrp_factors : forall U n N,
+  is_ok (get_mttkrp_factors (USeq U) n N) = is_ok (guard_mttkrp_factors N (map mshp U) n).
+Proof. exact get_mttkrp_factors_guard. Qed.
+Print Assumptions C19_get_mttkrp_factors.
+Theorem C19_get_mttkrp_factors_rejects : forall U n N,
+  mttkrp_cols_ok N (map mshp U) n = false \/ zlen U <> N \/ ~ (0 <= n < N) -> get_mttkrp_factors (USeq U) n N = Err.
+Proof. exact get_mttkrp_factors_rejects. Qed.
+Print Assumptions C19_get_mttkrp_factors_rejects.
+Example C19_get_mttkrp_factors_ex :
+  get_mttkrp_factors (USeq [[[1; 2]; [3; 4]]; [[1; 2; 3]; [4; 5; 6]]; [[1; 2]; [3; 4]]]) 2 3 = Err /\
+  is_ok (get_mttkrp_factors (USeq [[[1; 2]; [3; 4]]; [[1; 2; 3]; [4; 5; 6]]; [[1; 2]; [3; 4]]]) 1 3) = true.
+Proof. split; reflexivity. Qed.
+(* mttkrp on a sparse tensor (C19-N09 repaired); with matrices that have NO column the row counts are never looked at
+   (C19-N20, open): exact when R = the column count of U[1] (U[0] when n <> 0) is positive *)
 Theorem C19_sptensor_mttkrp_refuted : ~ sptensor_mttkrp_stmt.
 Proof. exact sptensor_mttkrp_refuted. Qed.
 Print Assumptions C19_sptensor_mttkrp_refuted.
 Theorem C19_sptensor_mttkrp_partial : forall s us n,
-  0 < mttkrp_R us n -> forallb (fun u => cols u <=? mttkrp_R us n) us = true ->
-  guard_sptensor_mttkrp s us n = decide (pre_mttkrp s us n).
+  0 < mttkrp_R us n -> guard_sptensor_mttkrp s us n = decide (pre_mttkrp s us n).
 Proof. exact sptensor_mttkrp_partial. Qed.
 Print Assumptions C19_sptensor_mttkrp_partial.
 Example C19_sptensor_mttkrp_ex : guard_sptensor_mttkrp [2; 3; 4] [(2, 2); (3, 2); (4, 2)] 1 = Ok tt
-  /\ guard_sptensor_mttkrp [2; 3; 4] [(2, 2); (3, 2); (4, 1)] 1 = Err /\ guard_sptensor_mttkrp [2; 3; 4] [(2, 2); (4, 2); (3, 2)] 0 = Err.
+  /\ guard_sptensor_mttkrp [2; 3; 4] [(2, 2); (3, 2); (4, 1)] 1 = Err /\ guard_sptensor_mttkrp [2; 3; 4] [(2, 2); (4, 2); (3, 2)] 0 = Err
+  /\ guard_sptensor_mttkrp [2; 2; 2] [(2, 2); (2, 3); (2, 2)] 2 = Err.
 Proof. repeat split; reflexivity. Qed.
-(* sptensor.extract: numpy broadcasts a single subscript column / any columns on a 1-way tensor (C19-N17, open) *)
-Theorem C19_sptensor_extract_refuted : ~ sptensor_extract_stmt.
-Proof. exact sptensor_extract_refuted. Qed.
-Print Assumptions C19_sptensor_extract_refuted.
-Theorem C19_sptensor_extract_partial : forall s subs,
-  subs <> [] -> (forall row, In row subs -> zlen row = zlen (hd [] subs)) -> zlen (hd [] subs) <> 1 -> ndim s <> 1 ->
+(* sptensor.extract (C19-N17 repaired), for a rectangular subscript array with at least one row *)
+Theorem C19_sptensor_extract : forall s subs,
+  subs <> [] -> (forall row, In row subs -> zlen row = zlen (hd [] subs)) ->
   guard_sptensor_extract s subs = decide (pre_subs s subs).
-Proof. exact sptensor_extract_partial. Qed.
-Print Assumptions C19_sptensor_extract_partial.
+Proof. exact sptensor_extract_decides. Qed.
+Print Assumptions C19_sptensor_extract.
 Example C19_sptensor_extract_ex : guard_sptensor_extract [2; 3] [[0; 2]; [1; 1]] = Ok tt /\ guard_sptensor_extract [2; 3] [[0; 3]; [1; 1]] = Err
-  /\ guard_sptensor_extract [2; 3] [[0; -1]; [1; 1]] = Err /\ guard_sptensor_extract [2; 3; 4] [[0; 2]; [1; 1]] = Err.
+  /\ guard_sptensor_extract [2; 3] [[0; -1]; [1; 1]] = Err /\ guard_sptensor_extract [2; 3; 4] [[0; 2]; [1; 1]] = Err
+  /\ guard_sptensor_extract [2; 3] [[0]; [1]] = Err /\ guard_sptensor_extract [3] [[0; 0]; [1; 1]] = Err.
 Proof. repeat split; reflexivity. Qed.
 (* sptensor.from_aggregator: a subscript array without elements skips the comparisons (C19-N18, known) *)
 Theorem C19_from_aggregator_refuted : ~ from_aggregator_stmt.
@@ -395,16 +402,14 @@ Example C19_from_aggregator_ex : guard_from_aggregator [2; 3] [[0; 2]; [1; 1]] 2
   /\ guard_from_aggregator [2; 3] [[0; 2; 0]; [1; 1; 0]] 2 = Err.
 Proof. repeat split; reflexivity. Qed.
 
-(* gcp_opt: rank, optimizer and initial guess ("random" or a Kruskal tensor); a guess given as a list of matrices is not
-   compared with the rank or the shape (C19-N19, open) *)
-Theorem C19_gcp_opt_refuted : ~ gcp_opt_stmt.
-Proof. exact gcp_opt_refuted. Qed.
-Print Assumptions C19_gcp_opt_refuted.
-Theorem C19_gcp_opt_partial : forall s rank init opt_ok, (forall ms, init <> InitList ms) ->
-  guard_gcp_opt s rank init opt_ok = decide (pre_gcp_opt s rank init opt_ok).
-Proof. exact gcp_opt_partial. Qed.
-Print Assumptions C19_gcp_opt_partial.
+(* gcp_opt: rank, optimizer and initial guess: "random", a Kruskal tensor, or a list of factor matrices (C19-N19 repaired: the
+   list is compared with the rank and the shape of the data like a Kruskal tensor) *)
+Theorem C19_gcp_opt : forall s rank init opt_ok, guard_gcp_opt s rank init opt_ok = decide (pre_gcp_opt s rank init opt_ok).
+Proof. exact gcp_opt_decides. Qed.
+Print Assumptions C19_gcp_opt.
 Example C19_gcp_opt_ex : guard_gcp_opt [3; 2] 2 (InitK [3; 2] 2) true = Ok tt /\ guard_gcp_opt [3; 2] 2 (InitK [3; 2] 3) true = Err
   /\ guard_gcp_opt [3; 2] 2 (InitK [2; 3] 2) true = Err /\ guard_gcp_opt [3; 2] 0 InitRandom true = Err
-  /\ guard_gcp_opt [3; 2] 2 InitRandom false = Err /\ guard_gcp_opt [3; 2] 2 (InitList [(3, 2); (2, 3)]) true = Err.
+  /\ guard_gcp_opt [3; 2] 2 InitRandom false = Err /\ guard_gcp_opt [3; 2] 2 (InitList [(3, 2); (2, 3)]) true = Err
+  /\ guard_gcp_opt [3; 2] 2 (InitList [(3, 2); (2, 2)]) true = Ok tt /\ guard_gcp_opt [3; 2] 2 (InitList [(3, 3); (2, 3)]) true = Err
+  /\ guard_gcp_opt [3; 1] 2 (InitList [(3, 2); (3, 2)]) true = Err /\ guard_gcp_opt [3; 2] 0 (InitList [(3, 0); (2, 0)]) true = Err.
 Proof. repeat split; reflexivity. Qed.
